@@ -180,6 +180,23 @@ pub fn c09(a: &Args) {
         one(&mut out, &mut r2, file, tt, &mut d, tmax, repeats);
         if shown < 4 { shown += 1; out.sample(format!("{} n={} count={}: t=1..{} plain and fitness-guided, {} runs each", file.origin, file.n, tt.count(), tmax, repeats)); }
     });
+    // a constant node listed twice among the children of one node (legal in the format; the sampler's bookkeeping of which
+    // partial samples may be dropped sees the same child twice)
+    {
+        use crate::gen::Fmt;
+        let mk = |n: u32, lines: &[&str]| GenFile { fmt: Fmt::C2d, lines: lines.iter().map(|s| s.to_string()).collect(), n, origin: "repeated constant child".into() };
+        let files = vec![
+            mk(1, &["nnf 3 3 1", "L 1", "O 0 0", "O 0 3 0 1 1"]),
+            mk(2, &["nnf 4 4 2", "L 1", "L 2", "A 0", "A 4 0 1 2 2"]),
+            mk(3, &["nnf 13 14 3", "L 1", "L -1", "L 2", "L -2", "L 3", "L -3", "A 0", "O 2 2 2 3", "A 4 0 7 6 6", "O 0 0", "A 2 1 2", "O 1 4 8 10 9 9", "A 2 11 4"]),
+        ];
+        for file in files {
+            let tt = file.tt();
+            let Ok(mut d) = load(&file) else { out.fail("load-panic", &file.text(), "load", "panic", "model"); continue };
+            out.count("repeated_constant_child_models", 1);
+            one(&mut out, &mut r2, &file, &tt, &mut d, 3, repeats);
+        }
+    }
     // corpus: validity and coverage for t = 1, 2 on the repository models (judged by the model itself: sat / count queries)
     for (path, tf) in corpus(false).into_iter().take(if a.thorough() { 4 } else { 2 }) {
         let p = path.clone();
